@@ -247,12 +247,12 @@ def ext_cases(ctx, pairs):
     for _ in range(n3):
         cn, ci = rng.choice(crate_forms)
         defmode = rng.random() < 0.7
-        last = rng.choice(["Thing", "Sprocket"])
+        last = rng.choice(["Thing", "Sprocket", "GearBox", "IoThing"])      # (compound names: a word of them is a name of its own)
         # definition names equal to / unrelated to the last path segment, and names that are a suffix, a prefix or an extension
         # of it (the transparent newtype is decided by comparing the two names); all of them Pascal-case words already, so that the
         # type name is the key itself (re-cased keys are C08's subject)
         key = None if not defmode else rng.choice([last, last, "Other", "Thing", "Renamed", last[2:].capitalize(), last[-3:].capitalize(),
-                                                   last[:3], last + "X", "X" + last])
+                                                   last[:3], last + "X", "X" + last] + re.findall(r"[A-Z][a-z0-9]*", last))
         params = rng.choice(params_variants(defmode))
         conf = rng.choice(["absent", "*", "!", "version", "version"])
         req, ver = sample_pairs(2)[rng.randrange(2)]
